@@ -770,7 +770,7 @@ def _pipeline(job, kern, jd, tag, canary, res, want_trace=True):
         base += ['--unwind', str(job.unwind), '--unwinding-assertions']
     base += job.cbmc_flags
     cmds = [(s_, base + solver_flags(s_)) for s_ in job.solvers]
-    budget = job.timeout if not canary else min(job.timeout, 120)
+    budget = job.timeout if not canary else min(job.timeout, 900)
     name, rc, out, err, s, to = race(cmds, jd, budget, job.mem_gb)
     with open(os.path.join(jd, tag + '.cbmc.json'), 'w') as f:
         f.write(out)
